@@ -83,10 +83,14 @@ func (f *frame) doCall(v *ssa.Call, st *State, reach string) {
 				byLabel := map[string][]string{}
 				slow := map[string]bool{}
 				for _, as := range asserts {
+					t, bound := f.evalSpecAtSite(as.Src, st, env)
+					if !bound {
+						continue // the clause names a local that is not in scope at this site
+					}
 					if _, ok := byLabel[as.Label]; !ok {
 						labels = append(labels, as.Label)
 					}
-					byLabel[as.Label] = append(byLabel[as.Label], f.evalSpec(as.Src, st, env, nil))
+					byLabel[as.Label] = append(byLabel[as.Label], t)
 					slow[as.Label] = slow[as.Label] || as.Slow
 				}
 				for _, l := range labels {
@@ -153,6 +157,23 @@ func (f *frame) doCall(v *ssa.Call, st *State, reach string) {
 		return
 	}
 	f.havocCall(v, st, reach, "no contract: "+name)
+}
+
+// evalSpecAtSite evaluates a site clause (at-call / at-return). A clause that
+// names a source variable which is not in scope at this site does not apply
+// there (bound == false); the binding guard in verifyFunc makes sure every
+// clause applies somewhere.
+func (f *frame) evalSpecAtSite(src string, st *State, env map[string]Val) (term string, bound bool) {
+	defer func() {
+		if r := recover(); r != nil {
+			if s, ok := r.(string); ok && strings.HasPrefix(s, "spec: unknown name ") {
+				term, bound = "", false
+				return
+			}
+			panic(r)
+		}
+	}()
+	return f.evalSpec(src, st, env, nil), true
 }
 
 func (f *frame) wouldInlineClosure(fn *ssa.Function) bool {
